@@ -37,10 +37,16 @@ import (
 	"time"
 
 	"github.com/named-data/ndnd/fw/core"
+	"github.com/named-data/ndnd/fw/defn"
 	"github.com/named-data/ndnd/fw/dispatch"
 	"github.com/named-data/ndnd/fw/face"
+	"github.com/named-data/ndnd/fw/fw"
+	fwmgmt "github.com/named-data/ndnd/fw/mgmt"
 	"github.com/named-data/ndnd/fw/table"
 	enc "github.com/named-data/ndnd/std/encoding"
+	"github.com/named-data/ndnd/std/ndn"
+	spec "github.com/named-data/ndnd/std/ndn/spec_2022"
+	"github.com/named-data/ndnd/std/utils"
 )
 
 type iname []int
@@ -424,6 +430,194 @@ func forcedRounds(t *testing.T, w *bufio.Writer) {
 	}
 }
 
+// ---- the forwarder around the tables: one real forwarding thread and the real management thread (for its
+// NLSR readvertiser), started once per test process
+var (
+	fwThread   *fw.Thread
+	mgmtThread *fwmgmt.Thread
+)
+
+func startForwarder(t *testing.T) {
+	face.Configure()
+	fwmgmt.Configure()
+	fw.VerifConfigure(1024, 1)
+	fwThread = fw.NewThread(0)
+	fw.Threads = []*fw.Thread{fwThread}
+	dispatch.InitializeFWThreads([]dispatch.FWThread{fwThread})
+	table.CreateFIBTable("nametree")
+	mgmtThread = fwmgmt.MakeMgmtThread() // Tables.Rib.ReadvertiseNlsr is off in the config: rounds add the readvertiser themselves
+	go mgmtThread.VerifRun(func(any) {})
+	// Run registers the internal face and then its own FIB entry; after that it only waits on its transport, so the
+	// harness may replace the FIB variable between rounds (in the daemon it is set once at start-up)
+	nfd, _ := enc.NameFromStr("/localhost/nfd")
+	deadline := time.Now().Add(5 * time.Second)
+	for len(table.FibStrategyTable.FindNextHopsEnc(nfd)) == 0 {
+		if time.Now().After(deadline) {
+			t.Fatalf("management thread never registered /localhost/nfd")
+		}
+		time.Sleep(100 * time.Microsecond)
+	}
+	time.Sleep(2 * time.Millisecond)
+}
+
+// bounded runs f and reports whether it returned within d
+func bounded(d time.Duration, f func()) bool {
+	done := make(chan struct{})
+	go func() { f(); close(done) }()
+	select {
+	case <-done:
+		return true
+	case <-time.After(d):
+		return false
+	}
+}
+
+// readvertiseRound: client-origin (65) routes with NLSR readvertising on; the same prefix registered on two faces, one
+// removed, further registrations and withdrawals -- sequentially and from several goroutines.  Every RIB operation calls
+// the readvertiser while holding the RIB mutex: an operation that never returns is a deadlock (watchdog).  Recorded like a
+// normal round, so the history is also checked for a sequential witness.
+func readvertiseRound(t *testing.T, w *bufio.Writer, round int, impl string, m int, g *gen) {
+	table.AddReadvertiser(fwmgmt.NewNlsrReadvertiser(mgmtThread))
+	P, Q := iname{1, 2}, iname{1, 3}
+	universe := []iname{{}, {1}, P, Q, {1, 2, 4}}
+	seq := []op{
+		{"reg", P, []uint64{1, 65, 5, 1}},
+		{"reg", P, []uint64{2, 65, 7, 1}},
+		{"unreg", P, []uint64{1, 65}}, // still advertised through face 2: the withdraw is skipped
+		{"reg", Q, []uint64{1, 65, 3, 1}},
+		{"unreg", P, []uint64{2, 65}},
+		{"teardown", nil, []uint64{1}},
+	}
+	var clock atomic.Int64
+	var mu sync.Mutex
+	var recs []rec
+	stuck := ""
+	do := func(gor int, o op) bool {
+		inv := clock.Add(1)
+		var res string
+		if !bounded(10*time.Second, func() { res = o.run() }) {
+			mu.Lock()
+			stuck = o.String()
+			mu.Unlock()
+			return false
+		}
+		mu.Lock()
+		recs = append(recs, rec{gor, inv, clock.Add(1), o, res})
+		mu.Unlock()
+		return true
+	}
+	ok := true
+	for _, o := range seq {
+		if ok = do(0, o); !ok {
+			break
+		}
+	}
+	if ok {
+		// the same pattern concurrently
+		var wg sync.WaitGroup
+		for i := 1; i <= 3; i++ {
+			wg.Add(1)
+			go func(i int) {
+				defer wg.Done()
+				f := uint64(i)
+				for _, o := range []op{{"reg", P, []uint64{f, 65, uint64(i), 1}}, {"reg", Q, []uint64{f, 65, 9, 0}}, {"unreg", P, []uint64{f, 65}}} {
+					if !do(i, o) {
+						return
+					}
+				}
+			}(i)
+		}
+		wg.Wait()
+	}
+	fmt.Fprintf(w, "R a%d %s %d 4\n", round, impl, m)
+	if stuck != "" {
+		fmt.Fprintf(w, "X watchdog: RIB operation [%s] with NLSR readvertising on never returned (deadlock: the RIB mutex stays held)\nE\n", stuck)
+		w.Flush()
+		t.Fatalf("readvertise round %d: operation %s never returned", round, stuck)
+	}
+	us := make([]string, len(universe))
+	for i, n := range universe {
+		us[i] = n.String()
+	}
+	fmt.Fprintf(w, "U %s\n", strings.Join(us, " "))
+	for _, r := range recs {
+		fmt.Fprintf(w, "H %d %d %d %s => %s\n", r.g, r.inv, r.resp, r.op.String(), r.res)
+	}
+	nh := make([]string, len(universe))
+	st := make([]string, len(universe))
+	for i, n := range universe {
+		nh[i] = nhStr(table.FibStrategyTable.FindNextHopsEnc(n.enc()))
+		st[i] = stratStr(table.FibStrategyTable.FindStrategyEnc(n.enc()))
+	}
+	fmt.Fprintf(w, "F nh %s\nF st %s\nF fib %s\nF sl %s\nF rib %s\nE\n", strings.Join(nh, "|"), strings.Join(st, "|"), fibListing(), stratListing(), ribListing())
+}
+
+func mkInterest(name enc.Name, inFace uint64, nonce uint64) *defn.Pkt {
+	ei, err := spec.Spec{}.MakeInterest(name, &ndn.InterestConfig{Nonce: utils.IdPtr(nonce), Lifetime: utils.IdPtr(50 * time.Millisecond)}, nil, nil)
+	if err != nil {
+		panic(err)
+	}
+	raw := ei.Wire.Join()
+	p, _, err := spec.ReadPacket(enc.NewBufferReader(raw))
+	if err != nil || p.Interest == nil {
+		panic(fmt.Sprint("interest did not parse: ", err))
+	}
+	return &defn.Pkt{Name: p.Interest.NameV, L3: p, Raw: raw, IncomingFaceID: utils.IdPtr(inFace)}
+}
+
+// forwardingRound: the forwarding thread's Interest pipeline (FIB lookup, strategy, send on the next-hop face) races the
+// teardown of that very face (an application that registered a prefix on its face, sends Interests under it and exits).
+// A panic in the pipeline is what ends the daemon.
+func forwardingRound(t *testing.T, w *bufio.Writer, round int, g *gen) {
+	table.CreateFIBTable("nametree")
+	table.VerifResetRib()
+	panics := map[string]int{}
+	var pmu sync.Mutex
+	nonce := uint64(round) << 32
+	for iter := 0; iter < 60; iter++ {
+		app := face.MakeNullLinkService(face.MakeNullTransport())
+		face.FaceTable.Add(app)
+		id := app.FaceID()
+		other := face.MakeNullLinkService(face.MakeNullTransport())
+		face.FaceTable.Add(other)
+		pfx := iname{7, iter % 5}
+		table.Rib.AddEncRoute(pfx.enc(), &table.Route{FaceID: id, Origin: 0, Cost: 1, Flags: 1})
+		table.Rib.AddEncRoute(pfx.enc(), &table.Route{FaceID: other.FaceID(), Origin: 0, Cost: 5, Flags: 1})
+		var wg sync.WaitGroup
+		wg.Add(2)
+		go func() { // the forwarding thread
+			defer wg.Done()
+			for j := 0; j < 25; j++ {
+				nonce++
+				pkt := mkInterest(append(pfx.enc(), enc.NewStringComponent(enc.TypeGenericNameComponent, fmt.Sprintf("i%d-%d", iter, j))), id, nonce)
+				func() {
+					defer func() {
+						if e := recover(); e != nil {
+							pmu.Lock()
+							panics[fmt.Sprint(e)]++
+							pmu.Unlock()
+						}
+					}()
+					fwThread.VerifProcessIncomingInterest(pkt)
+				}()
+			}
+		}()
+		go func() { // the face's goroutine: the transport ended
+			defer wg.Done()
+			d := time.Duration(g.r.Intn(400)) * time.Microsecond
+			time.Sleep(d)
+			face.FaceTable.Remove(id)
+		}()
+		wg.Wait()
+		face.FaceTable.Remove(other.FaceID())
+	}
+	fmt.Fprintf(w, "R w%d T 1 2\n", round)
+	for msg, n := range panics {
+		fmt.Fprintf(w, "X panic in the forwarding pipeline while the next-hop face was torn down (%d times): %s\n", n, msg)
+	}
+	fmt.Fprintf(w, "E\n")
+}
+
 // listingRound: management listings (GetAllFIBEntries, GetAllForwardingStrategies, Rib.GetAllEntries) run beside
 // forwarding lookups and updates on prefixes whose next hops are NOT in ascending cost order (unrecorded: race / abort /
 // torn-value detection; every value read must be one that was written).
@@ -668,9 +862,12 @@ func TestConc(t *testing.T) {
 	}
 	recorded := 0
 	maxOps := 14 // operations per recorded round (the sequential-order search is exponential in the worst case)
-	core.LoadConfig(core.DefaultConfig(), "/tmp")
-	core.GetConfig().Core.LogLevel = "ERROR"
+	cfg := core.DefaultConfig()
+	cfg.Core.LogLevel = "ERROR"
+	cfg.Tables.Rib.ReadvertiseNlsr = false
+	core.LoadConfig(cfg, "/tmp")
 	table.Configure()
+	startForwarder(t)
 
 	f, err := os.Create(out)
 	if err != nil {
@@ -706,6 +903,14 @@ func TestConc(t *testing.T) {
 		table.VerifResetRib()
 		if round%7 == 6 {
 			listingRound(t, w, round, impl)
+			continue
+		}
+		if round%16 == 3 {
+			readvertiseRound(t, w, round, impl, m, g)
+			continue
+		}
+		if round%16 == 11 {
+			forwardingRound(t, w, round, g)
 			continue
 		}
 		names := g.names()
